@@ -1,12 +1,13 @@
 /-
   C02 — unification computes a most general unifier, or fails.
 
-  Proved here: restoration, the arity/name side conditions, symmetry of the dispatch on
-  variable/non-variable pairs. Completeness and most-generality (`unify_complete_mgu`) are NOT
-  proved yet: the correspondence check compares every generated case against an independent
-  textbook unifier (harness/unif.py) instead — see `unify_mgu_partial` in DESIGN.md §5.
+  Proved here: at most one yield; soundness (at the yield both terms denote the same term, and
+  the bindings extend the starting ones only by binding previously unbound variables);
+  restoration; the arity/name side conditions; symmetry of the dispatch on variable/non-variable
+  pairs. Completeness and most-generality are NOT proved: the correspondence check compares every
+  generated case against an independent textbook unifier (harness/unif.py) instead.
 -/
-import Yld.Proofs.Restore
+import Yld.Proofs.UnifySound
 namespace Yld.C02
 
 /-- Compound terms unify only if both name and number of arguments agree: equal names with
@@ -43,5 +44,17 @@ theorem unify_restores (f : Nat) (t1 t2 : Term) : Restoring (unify f t1 t2) := u
 theorem unify_var_nonvar_symm (f : Nat) (x : Nat) (s : String) (k : K) (w : World) (h : w.b x = none) :
     unify (f+1) (.var x) (.atom s) k w = unify (f+1) (.atom s) (.var x) k w := by
   simp [unify, walk, h]
+
+/-- unify yields at most once, under any stack of bindings already active: its consumer is
+    called zero times or exactly once, on a world that depends on the terms and the starting world
+    only. -/
+theorem unify_yields_at_most_once (f : Nat) (t1 t2 : Term) (w : World) : Shape (unify f t1 t2) w :=
+  unify_shape f t1 t2 w
+
+/-- At the yield both terms dereference to the same term (they have exactly the same values
+    under the bindings in force), and the new bindings only bind variables that were unbound. -/
+theorem unify_sound_at_yield (f : Nat) (t1 t2 : Term) (w : World) :
+    ShapeP (fun pre => Ext w.b pre.b ∧ Same pre.b t1 t2) (unify f t1 t2) w :=
+  unify_sound f t1 t2 w
 
 end Yld.C02
